@@ -285,6 +285,9 @@ def run_contract(ex, c, argmap, st, e, yield_from=False):
     """assert requires, (rely step), havoc the frame, assume ensures; fork exceptional outcomes"""
     from .symexec import Raised
     site = '%s@L%d' % (c.qualname, getattr(e, 'lineno', 0))
+    if not hasattr(ex, 'called'):
+        ex.called = set()
+    ex.called.add(c.qualname)       # reported in the evidence: contracts this function was verified against
     before = st.copy()
     ctx0 = Ctx(pre=before, cur=before, args=argmap)
     # ghost arguments: chosen by the caller's contract, else the callee's default
